@@ -11,14 +11,24 @@ ASSUMPTIONS = ['the aliasing clause (payload never changes after its event was y
 def make(rng, tier, big):
     sc = Scenario([], prate=0)
     sizes = gen_core.BOUNDARY_SIZES if big else gen_core.SMALL_SIZES
-    items = [gen_core.gen_item(rng, sizes) for _ in range(rng.randint(1, 3 if big else 6))]
+    # a third of the streams negotiate permessage-deflate; the peer compresses some messages (any fragmentation)
+    deflate = rng.random() < 0.33
+    peer = None
+    extra = b''
+    if deflate:
+        from refcodec import DeflatePeer
+        sw = rng.choice([15, 15, 12, 9, 8])
+        snt = rng.random() < 0.3
+        peer = DeflatePeer(server_bits=sw, server_no_takeover=snt)
+        extra = b'Sec-WebSocket-Extensions: permessage-deflate; server_max_window_bits=%d%s\r\n' % (sw, b'; server_no_context_takeover' if snt else b'')
+    items = [gen_core.gen_item(rng, sizes, peer) for _ in range(rng.randint(1, 3 if big else 6))]
     closing = rng.random() < 0.4
     if closing:
         items.append(gen_core.gen_close(rng))
     frames = []
     for it in items:
         frames += gen_core.serialise_item(rng, it)
-    data = sc.good_reply() + b''.join(frames)
+    data = sc.good_reply(extra) + b''.join(frames)
     seg = rng.choice(['whole', 'rand', 'rand', 'bytes'] if not big else ['whole', 'rand'])
     if seg == 'whole':
         chunks = [data]
@@ -30,6 +40,7 @@ def make(rng, tier, big):
     expected = []
     for it in items:
         expected += it.expected()
+    sc.deflate_negotiated = deflate
     return sc, expected, items
 
 
@@ -45,8 +56,11 @@ def explore(res, tier, seed, model_ok=True):
         sc, exp, items = make(rng, tier, big=(i >= n))
         scs.append(sc); exps.append(exp)
         nts.append(any((it.frags and len(it.frags) > 1) for it in items) or i >= n)
+        res.count('deflate_negotiated' if getattr(sc, 'deflate_negotiated', False) else 'no_extension')
         for it in items:
             res.count(it.kind)
+            if it.compressed:
+                res.count('compressed_message')
             if it.frags and len(it.frags) > 1:
                 res.count('fragmented')
                 if any(len(f) == 0 for f in it.frags):
